@@ -101,6 +101,28 @@ def handleC02 (cmd : String) (args : List Sexp) : Option Sexp :=
   | "c02.td", [op, tree] => do
       let op ← C02D.op? op; let td ← C02D.tree? tree
       pure (C02D.runTd op td)
+  | "c02.repeat", [.list reps, tree] => do
+      let reps ← ints? reps; let td ← C02D.tree? tree
+      match td with
+      | .node bs names es =>
+        match repeatNode reps bs names es with
+        | .error e => pure (C02D.errSexp e)
+        | .ok r => pure (tagged "ok" [C02D.treeSexp r])
+      | _ => pure (C02D.errSexp .type)
+  | "c02.ri", [r, d, tree] => do
+      let r ← asInt? r; let d ← asInt? d; let td ← C02D.tree? tree
+      match td with
+      | .node bs names es =>
+        match riNode r d bs names es with
+        | .error e => pure (C02D.errSexp e)
+        | .ok res => pure (tagged "ok" [C02D.treeSexp res])
+      | _ => pure (C02D.errSexp .type)
+  | "c02.torch_repeat", [.list reps, .list sh] => do
+      let reps ← nats? reps; let sh ← nats? sh
+      pure (tagged "ok" [C02D.tensorSexp ((arange sh).repeat reps)])
+  | "c02.torch_ri", [r, d, .list sh] => do
+      let r ← asNat? r; let d ← asNat? d; let sh ← nats? sh
+      pure (tagged "ok" [C02D.tensorSexp ((arange sh).repeatInterleave r d)])
   | "c02.torch", [op, .list sh] => do
       let op ← C02D.op? op; let sh ← nats? sh
       pure (C02D.runTorch op (arange sh))
